@@ -104,6 +104,12 @@ func (c19) Plan(tier string, seed int64) []core.Scenario {
 	for v := 0; v < 9; v++ { // verifier outcome: 0..7 sets, 8 error
 		out = append(out, core.Sc("handler").WithN("verif", v))
 	}
+	for i := 0; i < 4; i++ {
+		out = append(out, core.Sc("handler-seq").WithN("order", i))
+	}
+	for a := 0; a < 8; a++ {
+		out = append(out, core.Sc("shared-defaults").WithN("def", a))
+	}
 	for _, tr := range []string{"ws", "http"} {
 		for def := 0; def < 8; def += 3 {
 			out = append(out, core.Sc("e2e").WithS("transport", tr).WithN("def", def))
@@ -121,6 +127,10 @@ func (p c19) Run(sc core.Scenario) core.Result {
 		p.runHandler(sc, r)
 	case "e2e":
 		p.runE2E(sc, r)
+	case "handler-seq":
+		p.runHandlerSeq(sc, r)
+	case "shared-defaults":
+		p.runSharedDefaults(sc, r)
 	}
 	return r.Result()
 }
@@ -312,6 +322,119 @@ func (p c19) runHandler(sc core.Scenario, r *core.R) {
 		}
 	}
 	r.Sample(map[string]interface{}{"verifier_outcome": v, "forms": len(forms)})
+}
+
+// runHandlerSeq: one Handler instance sees the same tokens repeatedly (as a long-lived server does);
+// every single request must be judged on the verifier's outcome for its token.
+func (c19) runHandlerSeq(sc core.Scenario, r *core.R) {
+	verifierCalls := map[string]int{}
+	var nextRan int
+	var nextCtx context.Context
+	h := &auth.Handler{
+		Verify: func(ctx context.Context, token string) ([]auth.Permission, error) {
+			verifierCalls[token]++
+			if strings.HasPrefix(token, "bad") {
+				return nil, errors.New("rejected")
+			}
+			var out []auth.Permission
+			for _, c := range strings.TrimPrefix(token, "ok") {
+				out = append(out, auth.Permission(string(c)))
+			}
+			return out, nil
+		},
+		Next: func(w http.ResponseWriter, rq *http.Request) { nextRan++; nextCtx = rq.Context(); w.WriteHeader(200) },
+	}
+	seqs := [][]string{
+		{"bad1", "bad1", "bad1", "okr", "bad1", "okr"},
+		{"okrw", "okrw", "bad2", "bad2", "okrw", "", "bad2"},
+		{"bad3", "oka", "bad3", "oka", "bad3", "bad3"},
+		{"ok", "ok", "bad4", "ok", "bad4", "okarw", "bad4"},
+	}
+	seq := seqs[sc.I("order")%len(seqs)]
+	for i, tok := range seq {
+		nextRan, nextCtx = 0, nil
+		req := httptest.NewRequest("POST", "http://x/rpc", strings.NewReader("{}"))
+		if tok != "" {
+			req.Header.Set("Authorization", "Bearer "+tok)
+		}
+		rec := httptest.NewRecorder()
+		h.ServeHTTP(rec, req)
+		r.Obs("handler_cases", 1)
+		r.AddKey(fmt.Sprintf("seq%d|%d|%s", sc.I("order"), i, tok))
+		label := fmt.Sprintf("request #%d of the sequence %v on one Handler (token %q)", i+1, seq, tok)
+		switch {
+		case tok == "":
+			if nextRan != 1 || rec.Code == 401 {
+				r.Violate("auth-tokenless", "%s: token-less request must pass through: next=%d status=%d", label, nextRan, rec.Code)
+			} else if att, _ := attachedSet(nextCtx); att {
+				r.Violate("auth-tokenless", "%s: token-less request got permissions attached", label)
+			}
+		case strings.HasPrefix(tok, "bad"):
+			if rec.Code != 401 || nextRan != 0 {
+				r.Violate("auth-rejected", "%s: a token the verifier rejects must get 401 without next, every time: status=%d next=%d", label, rec.Code, nextRan)
+			}
+		default:
+			var want []auth.Permission
+			for _, c := range strings.TrimPrefix(tok, "ok") {
+				want = append(want, auth.Permission(string(c)))
+			}
+			if nextRan != 1 || rec.Code == 401 {
+				r.Violate("auth-accepted", "%s: accepted token must reach next: next=%d status=%d", label, nextRan, rec.Code)
+				continue
+			}
+			var set []auth.Permission
+			for _, pp := range permU {
+				if auth.HasPerm(nextCtx, nil, pp) {
+					set = append(set, pp)
+				}
+			}
+			if att, _ := attachedSet(nextCtx); (!att && len(want) != 3) || permStr(set) != permStr(want) {
+				r.Violate("auth-attach", "%s: next must see exactly %s attached, saw %s", label, permStr(want), permStr(set))
+			}
+		}
+	}
+	r.Key(fmt.Sprintf("handler-seq %d", sc.I("order")), true)
+	r.Sample(map[string]interface{}{"token_sequence_on_one_handler": seq})
+}
+
+type c19ProxyRW struct {
+	Er func(ctx context.Context) error `perm:"r"`
+	Ew func(ctx context.Context) error `perm:"w"`
+}
+
+// runSharedDefaults: one defaults slice is used to build several proxies with different valid sets
+// (as an application with several API surfaces does); each proxy must honour exactly those defaults.
+func (p c19) runSharedDefaults(sc core.Scenario, r *core.R) {
+	shared := subset(sc.I("def"))
+	// an order in which a permission unknown to the first proxy precedes known ones
+	if len(shared) > 1 {
+		shared[0], shared[len(shared)-1] = shared[len(shared)-1], shared[0]
+	}
+	want := append([]auth.Permission(nil), shared...)
+	impl1 := &c19Impl{}
+	var narrow c19ProxyRW
+	auth.PermissionedProxy([]auth.Permission{"r", "w"}, shared, impl1, &narrow)
+	impl2 := &c19Impl{}
+	var full c19Proxy
+	auth.PermissionedProxy(permU, shared, impl2, &full)
+	label := fmt.Sprintf("shared defaults %s, first proxy valid={rw}", permStr(want))
+	p.callAll(&full, context.Background(), impl2, want, r, label+" second proxy")
+	// the narrow proxy itself
+	for _, c := range []struct {
+		name string
+		req  auth.Permission
+		f    func(context.Context) error
+	}{{"Er", "r", narrow.Er}, {"Ew", "w", narrow.Ew}} {
+		before := atomic.LoadInt64(&impl1.n)
+		err := c.f(context.Background())
+		ran := atomic.LoadInt64(&impl1.n) - before
+		r.Obs("calls", 1)
+		if has(want, c.req) != (ran == 1 && err == nil) {
+			r.Violate("perm-denied-or-wrong", "%s: narrow proxy %s with defaults %s: ran=%d err=%v", label, c.name, permStr(want), ran, err)
+		}
+	}
+	r.Key("shared-defaults "+permStr(want), true)
+	r.Sample(map[string]interface{}{"shared_defaults": permStr(want), "proxies": []string{"valid {r,w}", "valid {r,w,a}"}})
 }
 
 // e2e: PermissionedProxy behind auth.Handler behind RPCServer, real clients.
